@@ -428,7 +428,15 @@ func ruleC01(c *Ctx) {
 		})
 		for k := range sub {
 			if !seenSub[k] {
-				if refA != nil && len(subCases) >= 3 && !subCases[k] {
+				refTable := false
+				eachInstr(gr, func(i ssa.Instruction) {
+					if lk, ok := i.(*ssa.Lookup); ok {
+						if _, isMap := lk.X.Type().Underlying().(*types.Map); isMap {
+							refTable = true // sub-keywords dispatched through a table: absence from the comparisons proves nothing
+						}
+					}
+				})
+				if refA != nil && len(subCases) >= 3 && !subCases[k] && !refTable {
 					c.bad("FIELDMAP-R", "reference:missing "+k, gr.Pos(), "the reference sub-dispatch has cases for "+fmt.Sprint(len(subCases))+" keywords but none for "+k+": that line is dropped")
 				} else {
 					c.undecided("FIELDMAP-R", "reference:missing "+k, gr.Pos(), "handling of the reference sub-keyword "+k+" was not recognised")
@@ -474,9 +482,15 @@ func ruleC01(c *Ctx) {
 		case hdr == nil || featT == nil || !(featT.Op == "each" || featT.Op == "zip" || featT.Op == "index"):
 			stt, whyT = unknown, "the feature handed to AddFeature is not an element of a list walked by a loop: "+short(fmt.Sprint(featT))
 		case recv != ssa.Value(seqA):
-			stt, whyT = broken, "features are added to a sequence other than the one returned"
+			stt, whyT = unknown, "features are added to a value that is not visibly the sequence returned"
+			if a2, ok := recv.(*ssa.Alloc); ok && a2 != seqA && tname(deref(a2.Type())) == tname(deref(seqA.Type())) {
+				stt, whyT = broken, "features are added to another local Sequence than the one returned"
+			}
 		case len(hdr.Succs) == 2 && pathCond(tb, hdr.Succs[0], af.Block()).Op != "true":
 			stt, whyT = broken, "AddFeature is conditional inside the loop (under "+short(pathCond(tb, hdr.Succs[0], af.Block()).String())+"): some parsed features are not attached"
+			if len(opaqueCond(pathCond(tb, hdr.Succs[0], af.Block()))) > 0 {
+				stt = unknown
+			}
 		case !featT.contains(func(x *Term) bool { return x.isCall("poly/io/genbank.getFeatures") }):
 			stt, whyT = unknown, "the list walked is not visibly getFeatures' result: "+short(featT.String())
 		}
